@@ -188,8 +188,8 @@ def run(ctx):
         ctx.verdict(bool(cross) and same_name, rule, '%s:cross-table:%s' % (rule, top), 'a new multi-action infoset is inserted only if its name is absent from the same player\'s single-action table', f.where(bi),
                     'absent-from-single-table test on the same name dominates: %s' % (bool(cross) and same_name), breaks='one infoset name with one action here and several there: listed twice, cannot be re-imported')
         # stored witness == compared witness
-        bnew = q.find_sub(e, lambda s: s[0] == 'call' and 'PlayerInfosetBuilder' in s[1] and short(s[1]) == 'new')
-        stored = strip_refs(bnew[2][1]) if bnew is not None and len(bnew[2]) > 1 else None
+        stored = q.ctor_field(lib, e, 'PlayerInfosetBuilder', 'prev_infoset', new_arg=1)
+        stored = strip_refs(stored) if stored is not None else None
         ctx.verdict(stored is not None and q.is_call(stored, 'ind') and 'prev_infosets' in facts.show(stored), 'C11.recall-witness-stored', 'C11.recall-witness-stored:%s' % top,
                     'the witness stored with a new infoset is this player\'s current witness ind(player, prev_infosets) — the value later nodes are compared with', f.where(bi),
                     'stored: %s' % (facts.show(stored)[:70] if stored else '?'))
@@ -281,7 +281,7 @@ def run(ctx):
     rule = 'C11.error-producers'
     variants = [v['name'] for v in lib.adts.get('error::GameError', [])]
     if not variants:
-        ctx.anchor_lost(rule, 'enum GameError')
+        ctx.anchor_lost(rule, 'enum GameError', hard=True)
     for v in variants:
         ctx.verdict(v in errs, rule, '%s:%s' % (rule, v), 'every documented GameError has a producer in game construction', '%s' % (errs[v][0][0].where(errs[v][0][1]) if v in errs else ''),
                     '%d producer site(s)' % len(errs.get(v, [])), breaks='a documented rule is never enforced')
